@@ -40,6 +40,10 @@ def gen_cases(rng, n):
             else:
                 mv.append(rng.rng(1, 300))
         cases.append(("P", s, "-" if rng.chance(3, 4) else rng.rng(0, 2 ** 32), mv))
+    # small states: 16807 * s stays below 2^31-1 up to s = 127773 (no reduction happens), and below 2^31 up to 127773 as well; a fast path for
+    # small states would show just above (seed C19i: states 127774..131071 reduced modulo 2^31)
+    for s in [127772, 127773, 127774, 127775, 131071, 131072, 131073, 2 ** 17 + 2 ** 16] + [rng.rng(1, 2 ** 18) for _ in range(300)]:
+        cases.append(("P", s, "-", [rng.choice(maxvs), 3]))
     # long runs from one seed (a slip that needs many draws to show: a counter, a periodic reseeding)
     for ln in ([60000] if n <= 400 else [60000, 60000, 60000]):
         cases.append(("P", rng.rng(1, P - 1), "-", [rng.choice([2, 3, 255, 256, 1024, 50000, 65536]) for _ in range(ln)]))
